@@ -156,6 +156,11 @@ class RawHeaderPacketReceiver(Elaboratable):
 
                 m.next = "WAIT_FOR_HPSTART"
 
+                # The next header packet may follow back-to-back; don't miss its HPSTART.
+                m.d.comb += crc16.clear.eq(1)
+                with m.If(stream_matches_symbols(sink, SHP, SHP, SHP, EPF)):
+                    m.next = "RECEIVE_DW0"
+
 
         return m
 
